@@ -155,7 +155,7 @@ func (c *Checker) CheckEACL(ctx context.Context, msg any, cnr cid.ID, obj oid.ID
 		table = bearerTok.EACLTable()
 	}
 
-	hdrSrcOpts := make([]eaclV2.Option, 0, 3)
+	hdrSrcOpts := make([]eaclV2.Option, 0, 7)
 
 	hdrSrcOpts = append(hdrSrcOpts,
 		eaclV2.WithContext(ctx),
@@ -168,7 +168,8 @@ func (c *Checker) CheckEACL(ctx context.Context, msg any, cnr cid.ID, obj oid.ID
 	if req, ok := msg.(eaclV2.Request); ok {
 		hdrSrcOpts = append(hdrSrcOpts, eaclV2.WithServiceRequest(req))
 	} else if b, ok := msg.([]byte); ok {
-		hdrSrcOpts = append(hdrSrcOpts, eaclV2.WithObjectHeaderBinary(b))
+		// binary header has no X-headers, records may filter by them
+		hdrSrcOpts = append(hdrSrcOpts, eaclV2.WithObjectHeaderBinary(b), eaclV2.WithRequestXHeaders(reqInfo.SrcRequest))
 	} else {
 		hdrSrcOpts = append(hdrSrcOpts,
 			eaclV2.WithServiceResponse(
